@@ -263,7 +263,7 @@ def execute(history):
                     out.stats["probe:restored_" + how] += 1
                 except Exception as e:  # noqa
                     msg = str(e)
-                    kind = "non_leaf_deepcopy" if "graph leaves" in msg else ("local_object" if "local object" in msg or "Can't pickle" in msg else type(e).__name__)
+                    kind = "non_leaf_deepcopy" if ("graph leaves" in msg or "view was created in no_grad mode" in msg) else ("local_object" if "local object" in msg or "Can't pickle" in msg else type(e).__name__)
                     out.violate("snapshot_failed", i, "%s of %s raised %s(%s)" % (how, entry, type(e).__name__, msg[:160]), exc_kind=kind, **cls)
                     sketch.append(tag + "!")
                     continue
